@@ -307,6 +307,30 @@ func (r *runner) offence(st *Step) {
 				}
 				mustStay = true
 			}
+		case "fail":
+			// still not reading, the client sends a request the server must refuse and end the
+			// connection for - and keeps its socket open. The server cannot write to it any
+			// more; it must get rid of the connection all the same.
+			sim.Stats["fault.failing_request_from_stalled_reader"]++
+			for _, raw := range o.Raws {
+				c.SendPayload(raw)
+			}
+			r.quiesce()
+			sim.RunFor(30 * time.Second)
+			r.quiesce()
+			finishSwitch()
+			// Asserted only while the connection's send queue (512 messages) cannot be full: with
+			// a full queue the connection's own main loop is blocked answering into it and never
+			// gets to see the failing request - that is backpressure, and nothing in the
+			// statements obliges the server to give up on a reader that is merely slow.
+			if len(sentBodies)+len(myRIDs)+8 < 400 && c.InnerEntered > 0 && !c.HandleReturned && c.ServePanic == "" {
+				d := fmt.Sprintf("%s stopped reading with %d relays and %d answers outstanding (fewer than its send queue holds), then sent a request that ends the connection, and keeps its socket open: 30 s later its handler has not returned (%s)", c.Label, len(sentBodies), len(myRIDs), strings.Join(sim.Describe(), "; "))
+				r.v("C08", "handler-not-returned", "%s", d)
+			}
+			// the rest of the clean-up is judged after the client has given up
+			c.Reset()
+			clientClosed = true
+			r.quiesce()
 		case "fin":
 			c.CloseFull() // unread data pending: the kernel resets the peer's writes
 			clientClosed = true
